@@ -376,6 +376,62 @@ def n26_for_pair_iter(src, log):
         log.append(f"N26 for ({A}, {B}) in {recv}.iter() -> index loop")
 
 
+def n27_map_idioms(src, log):
+    """two HashMap idioms outside Verus, rewritten by their std definitions:
+         M.entry(K).or_insert_with(|| E);            (statement: the entry reference is not used)
+             ->  if !M.contains_key(&K) { M.insert(K, E); }
+         if let Some(X) = M.get_mut(&K) { BODY }     (BODY updates fields of X)
+             ->  if M.contains_key(&K) { let mut X = M.remove(&K).unwrap(); BODY M.insert(K, X); }
+    (a HashMap has no observable order: taking the entry out and putting it back is the same map)"""
+    while True:
+        toks = lex(src)
+        hit = None
+        for i, t in enumerate(toks):
+            if t.text == "or_insert_with" and i >= 2 and toks[i - 1].text == "." and toks[i - 2].text == ")" and toks[i + 1].text == "(":
+                eo = toks[i - 2].mate          # `(` of entry(
+                if toks[eo - 1].text != "entry" or toks[eo - 2].text != ".":
+                    continue
+                cs = _chain_start(toks, eo - 2)
+                m = src[toks[cs].start:toks[eo - 3].end]
+                key = src[toks[eo].end:toks[i - 2].start].strip()
+                o = i + 1
+                c = toks[o].mate
+                if toks[o + 1].text != "||" or toks[c + 1].text != ";" or not (cs == 0 or toks[cs - 1].text in ("{", "}", ";")):
+                    continue
+                e = src[toks[o + 1].end:toks[c].start].strip()
+                hit = (toks[cs].start, toks[c + 1].end, f"if !{m}.contains_key(&{key}) {{ {m}.insert({key}, {e}); }}", f"{m}.entry({key}).or_insert_with(..)")
+                break
+            if t.text == "get_mut" and i >= 1 and toks[i - 1].text == "." and toks[i + 1].text == "(":
+                cs = _chain_start(toks, i - 1)
+                # if let Some(X) = <chain>.get_mut(&K) {
+                if cs < 6 or [x.text for x in toks[cs - 7:cs]][:3] != ["if", "let", "Some"] or toks[cs - 1].text != "=":
+                    continue
+                x = toks[cs - 3].text
+                if toks[cs - 4].text != "(" or toks[cs - 2].text != ")":
+                    continue
+                m = src[toks[cs].start:toks[i - 2].end]
+                o = i + 1
+                c = toks[o].mate
+                arg = src[toks[o].end:toks[c].start].strip()
+                if not arg.startswith("&") or toks[c + 1].text != "{":
+                    continue
+                key = arg[1:].strip()
+                bo = c + 1
+                bc = toks[bo].mate
+                if bc + 1 < len(toks) and toks[bc + 1].text == "else":
+                    continue
+                body = src[toks[bo].end:toks[bc].start]
+                hit = (toks[cs - 7].start, toks[bc].end,
+                       f"if {m}.contains_key(&{key}) {{ let mut {x} = {m}.remove(&{key}).unwrap(); {body} {m}.insert({key}, {x}); }}",
+                       f"if let Some({x}) = {m}.get_mut(&{key})")
+                break
+        if hit is None:
+            return src
+        a, b, rep, what = hit
+        src = src[:a] + rep + src[b:]
+        log.append(f"N27 {what} -> contains_key / remove / insert")
+
+
 def find_closures(src, toks):
     """Yield (bar0, bar1, body_start_tok, body_end_tok_inclusive, has_block) for every closure."""
     res = []
@@ -1529,6 +1585,8 @@ def normalise(src, rules, log, ctx=None):
             src = n10_entry_append(src, log)
         elif r == "nmirlits":
             src = nmirlits(src, log)
+        elif r == "n27":
+            src = n27_map_idioms(src, log)
         elif r == "n24":
             src = n24_key_searches(src, log)
         elif r == "n26":
